@@ -117,6 +117,21 @@ def spellings(rng, meta):
                 yield lrel + f["abs"], "via-symlink-fsroot", "outside-file", f
             elif tgt == f["abs"]:
                 yield lrel, "via-symlink-file", "outside-file", f
+            else:
+                continue
+            # the same route, entered through a link that cannot be resolved (a symlink loop, a dangling or
+            # self-referencing link) and left again with "..": whatever the resolver makes of the loop, the
+            # rest of the path must still be resolved before containment is judged
+            import posixpath
+
+            via = (lrel + "/" + os.path.relpath(f["abs"], tgt)) if (f["abs"].startswith(tgt.rstrip("/") + "/") and tgt != "/") else (lrel + f["abs"] if tgt == "/" else lrel)
+            for ulink, utarget in meta["links"]:
+                if os.path.basename(ulink) not in ("loop-a", "loop-b", "dangling", "self-dir"):
+                    continue
+                urel = "/" + "/".join(enc(s) for s in rel_segments(meta, ulink))
+                parent = posixpath.dirname(urel) or "/"
+                yield urel + "/../" + posixpath.relpath(via, parent), "via-unresolvable-link-then-symlink:" + os.path.basename(ulink).split("-")[0], "outside-file", f
+                yield urel + "/x/../../" + posixpath.relpath(via, parent), "via-unresolvable-link-then-symlink:" + os.path.basename(ulink).split("-")[0], "outside-file", f
     for od in ("site-private", "site2", "outside", "outside/sub"):
         for p, cls in [("/../" + od + "/", "dotdot-dir"), ("/%2e%2e/" + od + "/", "encoded-dotdot-dir"), ("/../" + od, "dotdot-dir-noslash"), ("/..%2f" + od + "%2f", "encoded-slash-dir")]:
             yield p, cls, "outside-dir", None
